@@ -846,3 +846,84 @@ Section SchemaSide.
     rewrite A1, A2, A3, A4. reflexivity.
   Qed.
 End SchemaSide.
+
+(* ================================================================== Part 4: one step below the
+   root, through struct members.  If [exact] holds for an object schema against a struct type and
+   the struct accepts an object, then for every declared property that is present the checker's
+   verdict holds for (property schema, member type) and the member type accepts the member's value
+   - so root soundness applies again at the member, and so on along any path of struct members. *)
+Section MemberStep.
+  Variables re native : ustring -> ustring -> bool.
+  Variable D : defs.
+  Variable T : space.
+  Variable A : list (ustring * id).
+  Local Notation de := (Serde.de re native T).
+  Local Notation dv := (Serde.default_val T).
+  Local Notation EX := (exact re D T A).
+
+  (* how the value [xv] of member [p] is accepted: by the member type itself, or - for a member
+     that may be absent - as null / by the type inside the Option (finding C05-F3) *)
+  Definition member_accepts (f : nat) (p : prop) (t' : id) (xv : json) : Prop :=
+    (t' = p_ty p /\ de f t' xv <> None) \/
+    (p_state p = POptional /\ get_det T (p_ty p) = Some (DOption t') /\
+     (xv = JNull \/ exists f', de f' t' xv <> None)).
+
+  Theorem exact_member_step
+          ty fmt enum cst nv sv ik items ai mni mxi uq props req ap mnp mxp no dflt title
+          t n d ps deny f kvs x k s' xv :
+    EX (SObj ty fmt enum cst nv sv ik items ai mni mxi uq props req ap mnp mxp None None None no None dflt title) t = true ->
+    get_det T t = Some (DStruct n d ps deny) ->
+    de (S f) t (JObj kvs) = Some x ->
+    In (k, s') props -> assoc k kvs = Some xv ->
+    exists p t', find_wire k ps = Some p /\ EX s' t' = true /\ member_accepts f p t' xv.
+  Proof.
+    intros G E Hde Hin Hk.
+    cbn [exact] in G. unfold exact_obj in G. change FT with 6 in G.
+    rewrite go_S in G. rewrite E in G. cbn [wrapper_of] in G. cbn [leaf_x] in G.
+    apply andb_true_iff in G. destruct G as [_ G]. unfold struct_x in G.
+    repeat match type of G with
+           | (?a && ?b = true) => let H' := fresh "L" in apply andb_true_iff in G; destruct G as [G H']
+           end.
+    (* L0 : additionalProperties, L1 : children *)
+    apply (proj1 (forallb_forall _ _) L0) in Hin. cbn [fst snd] in Hin.
+    destruct (find_wire k ps) as [p|] eqn:F; [|discriminate].
+    destruct (find_wire_some _ _ _ F) as [Hp Hw].
+    rewrite (de_at re native T _ _ _ _ E) in Hde. cbn [de_node de_struct_body] in Hde.
+    assert (H1 : de_struct_obj T (de f) (dv f) ps deny kvs <> None)
+      by (destruct (de_struct_obj T (de f) (dv f) ps deny kvs); [congruence | discriminate]).
+    apply de_struct_obj_ok in H1. destruct H1 as [H1 _]. rewrite de_named_ok in H1.
+    specialize (H1 p k Hp Hw). unfold member_val in H1. rewrite Hk in H1.
+    exists p. apply orb_true_iff in Hin. destruct Hin as [Hin|Hin].
+    - exists (p_ty p). split; [reflexivity|]. split; [exact Hin|]. left. split; [reflexivity | exact H1].
+    - destruct (p_state p) eqn:St; try discriminate.
+      destruct (get_det T (p_ty p)) as [[]|] eqn:Ed; try discriminate.
+      exists t0. split; [reflexivity|]. split; [exact Hin|]. right. split; [first [assumption | reflexivity]|]. split; [first [assumption | reflexivity]|].
+      destruct f as [|f0]; [exfalso; apply H1; reflexivity|].
+      rewrite (de_at re native T _ _ _ _ Ed) in H1. cbn [de_node] in H1.
+      destruct xv; [left; reflexivity | right ..]; exists f0;
+        (destruct (get_det T t0) as [[]|]; rewrite ?option_map_ok in H1; exact H1).
+  Qed.
+
+  (* ... hence the member's value satisfies what its property schema states at ITS root *)
+  Corollary exact_member_sound
+          ty fmt enum cst nv sv ik items ai mni mxi uq props req ap mnp mxp no dflt title
+          t n d ps deny f kvs x k s' xv :
+    EX (SObj ty fmt enum cst nv sv ik items ai mni mxi uq props req ap mnp mxp None None None no None dflt title) t = true ->
+    get_det T t = Some (DStruct n d ps deny) ->
+    de (S f) t (JObj kvs) = Some x ->
+    In (k, s') props -> assoc k kvs = Some xv ->
+    xv <> JNull ->
+    (forall t', std_wire_at T FT t' xv = true) ->
+    root_ok re D s' xv = true.
+  Proof.
+    intros G E Hde Hin Hk Hnn Hstd.
+    destruct (exact_member_step _ _ _ _ _ _ _ _ _ _ _ _ _ _ _ _ _ _ _ _ _ _ _ _ _ _ _ _ _ _ _ G E Hde Hin Hk)
+      as [p [t' [_ [Gx Hacc]]]].
+    destruct Hacc as [[_ Ha]|[_ [_ [Hn|[f' Ha]]]]].
+    - destruct (de f t' xv) as [y|] eqn:Q; [|congruence].
+      exact (exact_root_sound re native D T A s' t' xv f y Gx Q (Hstd t')).
+    - contradiction.
+    - destruct (de f' t' xv) as [y|] eqn:Q; [|congruence].
+      exact (exact_root_sound re native D T A s' t' xv f' y Gx Q (Hstd t')).
+  Qed.
+End MemberStep.
